@@ -230,6 +230,13 @@ Definition finish (m : msg) : res fmsg :=
 Definition parse_full (valid_time : str -> bool) (s : str) : res fmsg :=
   do m <- parse valid_time s; finish m.
 
+(* drivers.parseMsg(s): s = s.strip(); IrcMsg(s) if s else None -- the entry point of the receive path *)
+Definition parse_msg (valid_time : str -> bool) (s : str) : res (option fmsg) :=
+  match strip gen.T05.WHITESPACE s with
+  | [] => Ok None
+  | c :: s' => do f <- parse_full valid_time (c :: s'); Ok (Some f)
+  end.
+
 (* ---- __str__ of a message whose _str cache is empty ---- *)
 Definition serialize_body (m : msg) : str :=
   let p := m_prefix m in let c := m_command m in
@@ -280,7 +287,8 @@ Definition str_cached (m : msg) (cache : option str) : str * option str :=
    op 0: parse line -> (time tag lookup, result if time valid, result if not)
    op 1: serialize msg -> str
    op 2: escape str ; op 3: unescape str
-   op 5: ircutils.isUserHostmask(s), ircutils.splitHostmask(s) *)
+   op 5: ircutils.isUserHostmask(s), ircutils.splitHostmask(s)
+   op 6: drivers.parseMsg(line), as op 0 *)
 Definition run (v : value) : value :=
   let payload := nth_v 1 v in
   match gN (nth_v 0 v) with
@@ -295,6 +303,8 @@ Definition run (v : value) : value :=
          let r2 := str_cached m (snd r1) in
          L [vS (fst r1); vS (fst r2)]
   | 5 => let s := gS payload in L [vB (is_user_hostmask s); vR vTriple (split_hostmask s)]
+  | 6 => let s := gS payload in
+         L [vR (vO vFMsg) (parse_msg (fun _ => true) s); vR (vO vFMsg) (parse_msg (fun _ => false) s)]
   | _ => L []
   end.
 
